@@ -480,8 +480,16 @@ def stage_fixtures(ctx, pq, w):
                 vals += [vt.idx(v) for v in pg["vals"]]
             n = rec["num_rows"]
             spec = pq.call("assemble_spec", ro, eo, ents, vals)
-            model = m_result(pq.call("run_v1", ro, eo, n, mp))
-            guard = [bool(int(x)) for x in pq.call("split_guard", ro, eo, mp)]
+            if rec["pages"] and all(pg.get("v2") for pg in rec["pages"]):
+                mp2 = [[p, pg["num_rows"]] for p, pg in zip(mp, rec["pages"])]
+                model = m_result(pq.call("run_v2", False, ro, eo, n, mp2))
+                guard = [bool(int(x)) for x in pq.call("v2_guard", ro, eo, mp2)]
+            elif any(pg.get("v2") for pg in rec["pages"]):
+                ctx.count("fixture.leaf_skipped", "%s:%s (v1 and v2 pages in one chunk)" % (fn, ".".join(rec["path"])))
+                continue
+            else:
+                model = m_result(pq.call("run_v1", ro, eo, n, mp))
+                guard = [bool(int(x)) for x in pq.call("split_guard", ro, eo, mp)]
             case = {**case0, "rg": rec["rg"], "leaf": ".".join(rec["path"]), "pages": len(mp), "entries": len(ents), "rows": n}
             ctx.case(case)
             ctx.count("fixture.leaf", "%s:%s pages=%d good_split=%s" % (fn, ".".join(rec["path"]), len(mp), guard))
@@ -527,10 +535,10 @@ def stage_fixtures(ctx, pq, w):
             ccase = {**case, "column": name}
             ccase.pop("leaf", None)
             if pred is not None:
-                ctx.correspondence("run_v1 (+ dict(zip)) on the decoded page streams of a third-party file ~ to_pandas()", ccase,
+                ctx.correspondence("run_v1 / run_v2 (+ dict(zip)) on the decoded page streams of a third-party file ~ to_pandas()", ccase,
                                    sha_cells(pred), sha_cells(got))
             if guard == [True, True]:
-                ctx.correspondence("model on a good split = assemble_spec of the stream (instance of C15_pages_partial, third-party file)",
+                ctx.correspondence("model on a good split = assemble_spec of the stream (instance of C15_pages_partial / C15_v2_pages_whole, third-party file)",
                                    ccase, sha_cells(pred), sha_cells(want))
             if got != want:
                 bad = [i for i in range(min(len(got), len(want))) if got[i] != want[i]][:3] if isinstance(got, list) else []
